@@ -105,6 +105,9 @@ func checkC02(r *Run) {
 	r.Count("exhaustive_chain_shapes", len(specs))
 	cycles := starCycleGraphs()
 	r.Count("export_star_cycle_graphs", len(cycles))
+	diamonds := starDiamondGraphs()
+	r.Count("export_star_diamond_graphs", len(diamonds))
+	cycles = append(cycles, diamonds...)
 	total := ngraphs + len(specs) + len(cycles)
 	parallel(total, 16, func(i int) {
 		rng := newRng(r.Seed, fmt.Sprint("c02g", i))
@@ -261,7 +264,7 @@ func jobsFile(jobs []nodeJob, id string) string {
 
 // edgeKinds: the sorted set of edge forms in a graph (signature component)
 func edgeKinds(g ggraph) string {
-	if len(g.Desc) == 1 && strings.HasPrefix(g.Desc[0], "star-cycle") {
+	if len(g.Desc) == 1 && (strings.HasPrefix(g.Desc[0], "star-cycle") || strings.HasPrefix(g.Desc[0], "star-diamond")) {
 		return g.EntryKind + "-entry{" + strings.ReplaceAll(g.Desc[0], " ", ",") + "}"
 	}
 	set := map[string]bool{}
